@@ -3,13 +3,20 @@ import CashewsVerif.Model.Decor.Early
 import CashewsVerif.Model.Decor.Soft
 import CashewsVerif.Model.Decor.Fail
 import CashewsVerif.Model.Decor.Hit
+import CashewsVerif.Model.Decor.Overlap
 /- Driver for C14: runs one history (`call` / `adv` / `done`) on the early / soft / failover / hit model.
 
   case <early|soft|fail|hit> ttl=<ticks> inner=<ticks> hits=<n> upd=<n> bg=<0|1>   -> ok
-  call <outcome> [<dur>]       -> model=<fresh:s:id|stored:s:id|raised:lis|raised:unl|storeerr:lis|storeerr:unl|broken> x=<0|1> b=<0|1> n=<in flight> t=<clock after>
+  call <outcome> [<dur>]       -> model=<fresh:s:id|stored:s:id|raised:lis|raised:unl|storeerr:lis|storeerr:unl|joined:id|broken> x=<0|1> b=<0|1> n=<in flight> t=<clock after>
                                   (<dur>, default 0: ticks the function body takes if it runs inside the call)
   adv <ticks>                  -> model=ok n=<in flight> t=<clock after>
-  done <i> <outcome>           -> model=<noop|stored|skipped|failed> n=<in flight> t=<clock after>
+  done <i> <outcome>           -> model=<noop|stored|skipped|failed> n=<in flight> t=<clock after> [w=<what the callers parked on that
+                                  recalculation (early: `joined:id`) are handed: fresh:s:id|raised:…|storeerr:…|->]
+  overlapping calls of one key (Model/Decor/Overlap.lean):
+  case <ofail|osoft> ttl=<ticks> inner=<ticks> hits=0 upd=0 bg=0                 -> ok
+  begin                        -> model=<began:id|served:stored:s:id> p=<pending> t=<clock>
+  fin <i> <outcome>            -> model=<answered:<res>|noop> p=<pending> t=<clock>
+  adv <ticks>                  -> model=ok p=<pending> t=<clock>
   outcome = ok | lis | unl | rej (the condition turns the result down)
           | preL | preU (condition / callable ttl raises a listed / unlisted exception) | setL | setU (backend.set raises)
 -/
@@ -21,6 +28,8 @@ inductive St where
   | soft (c : Soft.Cfg) (s : Soft.St)
   | fail (c : Fail.Cfg) (s : Fail.St)
   | hit (c : Hit.Cfg) (s : Hit.St)
+  | ofail (c : Fail.Cfg) (s : Overlap.St)
+  | osoft (c : Soft.Cfg) (s : Overlap.St)
 
 def parseOutcome? (s : String) : Option Outcome :=
   if s = "ok" then some .ok else if s = "lis" then some .listed else if s = "unl" then some .unlisted
@@ -51,6 +60,7 @@ def showRes : Res → String
   | .stored s i => s!"stored:{s}:{i}"
   | .raised o => s!"raised:{showOutcome o}"
   | .storeErr l => if l then "storeerr:lis" else "storeerr:unl"
+  | .joined i => s!"joined:{i}"
   | .broken => "broken"
 
 def b01 (b : Bool) : String := if b then "1" else "0"
@@ -75,8 +85,23 @@ def parseCase? : List String → Option St
     else if d = "soft" then some (.soft ⟨ttl, inner⟩ Soft.init)
     else if d = "fail" then some (.fail ⟨ttl⟩ Fail.init)
     else if d = "hit" then some (.hit ⟨ttl, hits, upd, bg⟩ Hit.init)
+    else if d = "ofail" then some (.ofail ⟨ttl⟩ Overlap.init)
+    else if d = "osoft" then some (.osoft ⟨ttl, inner⟩ Overlap.init)
     else none
   | _ => none
+
+def parseCOp? : List String → Option Overlap.COp
+  | ["begin"] => some .begin
+  | ["fin", i, o] => do pure (.fin (← i.toNat?) (← parseOutcome? o))
+  | ["adv", dt] => do pure (.adv (← dt.toNat?))
+  | _ => none
+
+def showCAns : Overlap.CAns → String
+  | .began id => s!"model=began:{id}"
+  | .served r => s!"model=served:{showRes r}"
+  | .answered r => s!"model=answered:{showRes r}"
+  | .ok => "model=ok"
+  | .noop => "model=noop"
 
 def step (st : St) (line : String) : St × String :=
   let ws := words line
@@ -86,12 +111,31 @@ def step (st : St) (line : String) : St × String :=
     | some s => (s, "ok")
     | none => (st, "bad-op")
   | _ =>
+    match st with
+    | .ofail c s =>
+      match parseCOp? ws with
+      | none => (st, "bad-op")
+      | some op => let r := Overlap.failStep c s op; (.ofail c r.1, s!"{showCAns r.2} p={r.1.pending.length} t={r.1.t.now}")
+    | .osoft c s =>
+      match parseCOp? ws with
+      | none => (st, "bad-op")
+      | some op => let r := Overlap.softStep c s op; (.osoft c r.1, s!"{showCAns r.2} p={r.1.pending.length} t={r.1.t.now}")
+    | _ =>
     match parseOp? ws with
     | none => (st, "bad-op")
     | some op =>
       match st with
       | .none => (st, "bad-op")
-      | .early c s => let r := Early.step c s op; (.early c r.1, s!"{showAns r.2} n={r.1.inflight.length} t={r.1.t.now}")
+      | .ofail _ _ => (st, "bad-op")
+      | .osoft _ _ => (st, "bad-op")
+      | .early c s =>
+        let r := Early.step c s op
+        let w := match op with
+          | .done i o => match Early.joinedAnswer s i o with
+            | some res => s!" w={showRes res}"
+            | none => " w=-"
+          | _ => ""
+        (.early c r.1, s!"{showAns r.2} n={r.1.inflight.length} t={r.1.t.now}{w}")
       | .soft c s => let r := Soft.step c s op; (.soft c r.1, s!"{showAns r.2} n=0 t={r.1.t.now}")
       | .fail c s => let r := Fail.step c s op; (.fail c r.1, s!"{showAns r.2} n=0 t={r.1.t.now}")
       | .hit c s => let r := Hit.step c s op; (.hit c r.1, s!"{showAns r.2} n={r.1.inflight.length} t={r.1.t.now}")
